@@ -44,6 +44,7 @@ func fullProfile0(t *tape.Tape, flagCount uint32) app.Profile {
 		ExtLang: t.Chance(1, 4),
 		Unicode: t.Chance(1, 3),
 		ManySyms: t.Chance(1, 25),
+		CatchLoad: t.Chance(1, 3),
 	}
 }
 
@@ -80,6 +81,8 @@ var junkInputs = [][]byte{
 	[]byte("\x00"), []byte("\xff\xfe"), []byte("-1"), []byte("1\n2"), []byte("@root|$"), []byte("{{.x}}"),
 	[]byte(strings.Repeat("9", 255)), []byte(strings.Repeat("9", 256)), []byte(strings.Repeat("z", 300)),
 	[]byte("+"), []byte("+254712345678"), []byte("0"), []byte("00"), []byte("a b"), []byte("1 "),
+	// accepted by the input format and meaningful to a text/template parser, printf or a shell
+	[]byte("1{{"), []byte("9{{.x}}"), []byte("a}}"), []byte("0{{printf \"%d\" 1}}"), []byte("1%s%d"), []byte("2'\"`"), []byte("1\r"), []byte("3{{/*"),
 }
 
 // genInput draws the next client input. cur is the node the session is believed to be on.
